@@ -1622,7 +1622,7 @@ def oracle_corruption(ctx, tag="corruption", frac=0.56):
 
 
 MANIFEST = {
-    "text": "Proved in Lean for all inputs (Props/C08.lean, 19 theorems, axioms propext/Classical.choice/Quot.sound only): (P) extract_confined - for "
+    "text": "Proved in Lean for all inputs (Props/C08.lean, 21 theorems (the hard-link makelink re-extraction fallback of CPython's tarfile is inside the model and inside extract_confined), axioms propext/Classical.choice/Quot.sound only): (P) extract_confined - for "
             "the dispatch of the current source (Cfg.current, built from constants extracted from archive.py/utils.py on every run), every "
             "member list (any names, types, link names, order, repetitions, pax version) and every well-formed initial tree with a canonical "
             "destination in which no inode is shared between the workspace and the rest: __extractPackage leaves the name table, the inodes "
